@@ -1,8 +1,475 @@
 package h2rig
 
-import "verifharness/rng"
+import (
+	"fmt"
 
-// Generate produces one history (placeholder until the generator is written).
-func Generate(r *rng.R, i int) ([]Op, bool) {
-	return []Op{hdr("C", 1, false, reqFields), data("C", 1, 1+r.Intn(100), true)}, true
+	"verifharness/rng"
+)
+
+// stream bookkeeping of the generator (what a conforming pair of endpoints may still send)
+type gstream struct {
+	id                uint32
+	reqSent, reqEnded bool
+	respSent, respEnd bool
+	rstC, rstS        bool
+	pushed            bool // opened by PUSH_PROMISE: only the server sends on it
+}
+
+type gen struct {
+	r        *rng.R
+	s        *Session
+	ops      []Op
+	streams  []*gstream
+	maxStr   int
+	nextID   uint32
+	nextPush uint32
+	pendAck  map[string]int // SETTINGS frames received by the endpoint and not yet acknowledged
+	winReg   int
+	dataReg  int
+	init     map[string]uint32 // INITIAL_WINDOW_SIZE announced by each endpoint
+	maxf     map[string]uint32 // MAX_FRAME_SIZE announced by each endpoint
+	invalid  bool
+	tabDirty map[string]bool // x announced HEADER_TABLE_SIZE and no header block has been sent towards it since
+	dead     bool
+}
+
+var namePool = []string{"x-a", "x-b", "accept", "user-agent", "cookie", "x-long-header-name-for-the-table", "te", "grpc-timeout", "content-type", "x-k"}
+var valPool = []string{"", "v", "v1", "gzip, deflate", "application/grpc", "trailers", "a=b; c=d", "1S", "0123456789abcdef0123456789abcdef", "Mozilla/5.0 (X11; Linux x86_64)"}
+
+func (g *gen) fields(pseudo []Field) []Field {
+	out := append([]Field(nil), pseudo...)
+	n := g.r.Intn(6)
+	for i := 0; i < n; i++ {
+		f := Field{N: g.r.Pick(namePool), V: g.r.Pick(valPool)}
+		if g.r.Chance(1, 10) {
+			f.S = true
+		}
+		if g.r.Chance(1, 12) {
+			f.V = fmt.Sprintf("%s-%d", f.V, g.r.Intn(1000))
+		}
+		out = append(out, f)
+	}
+	if g.r.Chance(1, 14) {
+		// a value that makes the block larger than any MAX_FRAME_SIZE in use here
+		n := 16000 + g.r.Intn(3000)
+		if g.r.Chance(1, 3) {
+			n = 33000 + g.r.Intn(40000)
+		}
+		out = append(out, Field{N: "x-big", V: "b", R: []int{g.r.Intn(200), n}})
+	}
+	return out
+}
+
+func (g *gen) splits() []int {
+	if !g.r.Chance(1, 3) {
+		return nil
+	}
+	k := 1 + g.r.Intn(3)
+	var out []int
+	for i := 0; i < k; i++ {
+		switch g.r.Intn(4) {
+		case 0:
+			out = append(out, 0)
+		case 1:
+			out = append(out, 1)
+		case 2:
+			out = append(out, g.r.Intn(20))
+		default:
+			out = append(out, g.r.Intn(20000))
+		}
+	}
+	return out
+}
+
+func (g *gen) prio() *Prio {
+	if !g.r.Chance(1, 4) {
+		return nil
+	}
+	return &Prio{Dep: uint32(g.r.Intn(8)), Excl: g.r.Chance(1, 3), Weight: uint8(g.r.Intn(256))}
+}
+
+func (g *gen) do(o Op) {
+	if g.dead {
+		return
+	}
+	g.ops = append(g.ops, o)
+	if !o.Valid {
+		g.invalid = true
+	}
+	if o.Kind == "headers" || o.Kind == "push" {
+		g.tabDirty[otherSide[o.From]] = false
+	}
+	if !g.s.Do(o) {
+		g.dead = true
+		return
+	}
+	// SETTINGS forwarded to the other endpoint wait for its acknowledgement
+	if o.Kind == "settings" {
+		g.pendAck[otherSide[o.From]]++
+	}
+}
+
+func (g *gen) dataLen() int {
+	switch g.dataReg {
+	case 0:
+		return g.r.Intn(40)
+	case 1:
+		if g.r.Chance(1, 6) {
+			return 0
+		}
+		return g.r.Intn(400)
+	case 2:
+		return g.r.Intn(6000)
+	default:
+		switch g.r.Intn(4) {
+		case 0:
+			return 16384
+		case 1:
+			return 16385 + g.r.Intn(100)
+		case 2:
+			return 20000 + g.r.Intn(50000)
+		default:
+			return g.r.Intn(3000)
+		}
+	}
+}
+
+func (g *gen) data(from string, st *gstream) {
+	n := g.dataLen()
+	// while the receiver's (invalid, unvalidated) MAX_FRAME_SIZE is tiny keep payloads small
+	if g.maxf[otherSide[from]] < 16384 && n > 300 {
+		n = g.r.Intn(300)
+	}
+	o := Op{From: from, Kind: "data", ID: st.id, Len: n, Start: g.r.Intn(251), Valid: true}
+	if n > 0 && n <= 24 && g.r.Chance(1, 2) {
+		o.Bytes = make([]byte, n)
+		for i := range o.Bytes {
+			o.Bytes[i] = byte(g.r.Intn(256))
+		}
+	}
+	if g.r.Chance(1, 6) {
+		o.Padded, o.Pad = true, g.r.Intn(256)
+		if g.r.Chance(1, 4) {
+			o.Pad = 0
+		}
+	}
+	if g.r.Chance(1, 5) {
+		o.End = true
+	}
+	g.do(o)
+	if o.End {
+		if from == "C" {
+			st.reqEnded = true
+		} else {
+			st.respEnd = true
+		}
+	}
+}
+
+// queued lists (stream, head size, window) of the relay sending towards x, from the last snapshot
+func (g *gen) queued(x string) (ids []uint32, need map[uint32]int, conn int) {
+	need = map[uint32]int{}
+	l := g.s.Last()
+	if l == nil {
+		return nil, need, 0
+	}
+	sn := l.SnapC
+	if x == "S" {
+		sn = l.SnapS
+	}
+	for _, st := range sn.Streams {
+		if len(st.Queue) > 0 {
+			ids = append(ids, st.ID)
+			need[st.ID] = st.Queue[0].Size - st.Win
+		}
+	}
+	return ids, need, sn.Conn
+}
+
+func (g *gen) inc(need int) uint32 {
+	var v int
+	switch g.r.Intn(6) {
+	case 0:
+		v = need // exactly enough for the head
+	case 1:
+		v = need - 1 // one short
+	case 2:
+		v = need/2 + 1
+	case 3:
+		v = 1 + g.r.Intn(40)
+	case 4:
+		v = need + g.r.Intn(500)
+	default:
+		v = 1 + g.r.Intn(70000)
+	}
+	if v < 1 {
+		v = 1
+	}
+	return uint32(v)
+}
+
+func (g *gen) winupd(from string) {
+	ids, need, conn := g.queued(from)
+	o := Op{From: from, Kind: "winupd", Valid: true}
+	switch {
+	case len(ids) > 0 && g.r.Chance(3, 4):
+		id := ids[g.r.Intn(len(ids))]
+		if g.r.Chance(1, 3) {
+			// connection window: what the head of that stream lacks
+			l := g.s.Last()
+			sn := l.SnapC
+			if from == "S" {
+				sn = l.SnapS
+			}
+			head := 0
+			for _, st := range sn.Streams {
+				if st.ID == id && len(st.Queue) > 0 {
+					head = st.Queue[0].Size
+				}
+			}
+			o.ID, o.Inc = 0, g.inc(head-conn)
+		} else {
+			o.ID, o.Inc = id, g.inc(need[id])
+		}
+	case len(g.streams) > 0 && g.r.Chance(2, 3):
+		o.ID, o.Inc = g.streams[g.r.Intn(len(g.streams))].id, g.inc(g.r.Intn(100))
+	default:
+		o.ID, o.Inc = 0, g.inc(g.r.Intn(100))
+	}
+	g.do(o)
+}
+
+func (g *gen) windowValue() uint32 {
+	switch g.winReg {
+	case 0:
+		return uint32(g.r.Intn(60))
+	case 1:
+		return uint32(g.r.Intn(3000))
+	case 2:
+		return uint32(30000 + g.r.Intn(40001))
+	default:
+		if g.r.Chance(1, 2) {
+			return 65535
+		}
+		return uint32(g.r.Intn(70001))
+	}
+}
+
+func (g *gen) settings(from string) {
+	o := Op{From: from, Kind: "settings", Valid: true}
+	n := 1 + g.r.Intn(3)
+	have := map[uint32]bool{}
+	for i := 0; i < n; i++ {
+		var id, v uint32
+		switch g.r.Intn(10) {
+		case 0, 1, 2, 3:
+			id, v = 4, g.windowValue()
+			if g.r.Chance(1, 5) {
+				v = 0
+			}
+		case 4, 5:
+			id = 5
+			v = []uint32{16384, 16385, 20000, 32768, 65536, 1<<24 - 1}[g.r.Intn(6)]
+		case 6, 7:
+			if g.tabDirty[from] {
+				continue
+			}
+			g.tabDirty[from] = true
+			id = 1
+			v = []uint32{0, 40, 100, 4096, 8192, 65536}[g.r.Intn(6)]
+		case 8:
+			id, v = 3, uint32(1+g.r.Intn(100))
+		default:
+			id, v = []uint32{2, 6, 8, 0x99}[g.r.Intn(4)], uint32(g.r.Intn(2))
+		}
+		if have[id] {
+			continue
+		}
+		have[id] = true
+		o.Settings = append(o.Settings, [2]uint32{id, v})
+		switch id {
+		case 4:
+			g.init[from] = v
+		case 5:
+			g.maxf[from] = v
+		}
+	}
+	g.do(o)
+}
+
+func (g *gen) invalidOp(from string) {
+	o := Op{From: from, Valid: false}
+	switch g.r.Intn(6) {
+	case 0, 1:
+		o.Kind = "settings"
+		v := []uint32{0, 1, 100, 16383, 1 << 24}[g.r.Intn(5)]
+		o.Settings = [][2]uint32{{5, v}}
+		g.maxf[from] = v
+		o.Note = "invalid MAX_FRAME_SIZE"
+	case 2:
+		o.Kind, o.Settings, o.Note = "settings", [][2]uint32{{2, 2}}, "invalid ENABLE_PUSH"
+	case 3:
+		o.Kind, o.Type, o.Bytes, o.Note = "unknown", 0xfa, []byte{1, 2, 3}, "unknown frame type"
+	case 4:
+		o.Kind, o.ID, o.Inc, o.Note = "winupd", 0, 0, "zero increment"
+	default:
+		o.Kind, o.ID, o.Block, o.Note = "rawblock", 1, []byte{0xff, 0xff, 0xff, 0xff, 0xff, 0xff, 0xff}, "undecodable header block"
+		if from == "S" {
+			o.ID = 1
+		}
+	}
+	g.do(o)
+	// with MAX_FRAME_SIZE 0 accepted, the next non-empty DATA towards that endpoint shows the consequence
+	if !g.dead && o.Kind == "settings" && g.maxf[from] < 16384 {
+		st := &gstream{id: 1}
+		g.do(Op{From: otherSide[from], Kind: "data", ID: st.id, Len: 1 + g.r.Intn(50), Start: 3, Valid: true})
+	}
+}
+
+func (g *gen) step() {
+	r := g.r
+	from := "C"
+	if r.Chance(1, 2) {
+		from = "S"
+	}
+	// acknowledge forwarded SETTINGS, mostly promptly
+	for _, x := range []string{"C", "S"} {
+		if g.pendAck[x] > 0 && r.Chance(2, 3) {
+			g.pendAck[x]--
+			g.do(Op{From: x, Kind: "ack", Valid: true})
+			return
+		}
+	}
+	var live []*gstream
+	for _, st := range g.streams {
+		live = append(live, st)
+	}
+	pick := r.Intn(100)
+	switch {
+	case pick < 12 && len(g.streams) < g.maxStr:
+		st := &gstream{id: g.nextID, reqSent: true}
+		g.nextID += 2
+		o := Op{From: "C", Kind: "headers", ID: st.id, Fields: g.fields(reqFields[:4]), Prio: g.prio(), Splits: g.splits(), Valid: true}
+		if r.Chance(1, 8) {
+			o.End, st.reqEnded = true, true
+		}
+		if r.Chance(1, 10) {
+			o.Padded, o.Pad = true, r.Intn(30)
+		}
+		g.streams = append(g.streams, st)
+		g.do(o)
+	case pick < 40 && len(live) > 0:
+		st := live[r.Intn(len(live))]
+		switch {
+		case from == "C" && !st.pushed && st.reqSent && !st.reqEnded && !st.rstC:
+			g.data("C", st)
+		case from == "S" && st.respSent && !st.respEnd && !st.rstS:
+			g.data("S", st)
+		case from == "S" && !st.respSent && !st.rstS:
+			st.respSent = true
+			o := Op{From: "S", Kind: "headers", ID: st.id, Fields: g.fields(respFields[:1]), Splits: g.splits(), Valid: true}
+			if r.Chance(1, 10) {
+				o.End, st.respEnd = true, true
+			}
+			g.do(o)
+		default:
+			g.winupd(from)
+		}
+	case pick < 46 && len(live) > 0:
+		// trailers
+		st := live[r.Intn(len(live))]
+		if from == "C" && !st.pushed && st.reqSent && !st.reqEnded && !st.rstC {
+			st.reqEnded = true
+			g.do(Op{From: "C", Kind: "headers", ID: st.id, End: true, Fields: g.fields(nil), Splits: g.splits(), Valid: true})
+		} else if from == "S" && st.respSent && !st.respEnd && !st.rstS {
+			st.respEnd = true
+			g.do(Op{From: "S", Kind: "headers", ID: st.id, End: true, Fields: g.fields([]Field{{N: "grpc-status", V: "0"}}), Splits: g.splits(), Valid: true})
+		} else {
+			g.winupd(from)
+		}
+	case pick < 70:
+		g.winupd(from)
+	case pick < 80:
+		g.settings(from)
+	case pick < 84 && len(live) > 0:
+		st := live[r.Intn(len(live))]
+		if from == "C" && !st.rstC {
+			st.rstC, st.reqEnded = true, true
+			g.do(Op{From: "C", Kind: "rst", ID: st.id, Code: uint32(r.Intn(14)), Valid: true})
+		} else if from == "S" && !st.rstS {
+			st.rstS, st.respEnd, st.respSent = true, true, true
+			g.do(Op{From: "S", Kind: "rst", ID: st.id, Code: uint32(r.Intn(14)), Valid: true})
+		}
+	case pick < 88 && len(live) > 0:
+		st := live[r.Intn(len(live))]
+		g.do(Op{From: "C", Kind: "priority", ID: st.id, Prio: &Prio{Dep: uint32(r.Intn(8)), Excl: r.Chance(1, 2), Weight: uint8(r.Intn(256))}, Valid: true})
+	case pick < 92:
+		p := make([]byte, 8)
+		for i := range p {
+			p[i] = byte(r.Intn(256))
+		}
+		g.do(Op{From: from, Kind: "ping", Ack: r.Chance(1, 2), Ping: p, Valid: true})
+	case pick < 95 && len(live) > 0 && len(g.streams) < g.maxStr:
+		// PUSH_PROMISE on a stream the client opened, always in one frame (the framer in use refuses a
+		// PUSH_PROMISE continued by CONTINUATION: that is covered by a corpus case)
+		st := live[r.Intn(len(live))]
+		if st.pushed || st.rstS || st.respEnd {
+			g.winupd(from)
+			return
+		}
+		ps := &gstream{id: g.nextPush, pushed: true, reqSent: true, reqEnded: true}
+		g.nextPush += 2
+		g.streams = append(g.streams, ps)
+		g.do(Op{From: "S", Kind: "push", ID: st.id, Promise: ps.id, Fields: g.fields(reqFields[:4]), Valid: true})
+	case pick < 96:
+		g.do(Op{From: from, Kind: "goaway", Last: uint32(r.Intn(9)), Code: uint32(r.Intn(14)), Debug: []byte("bye")[:r.Intn(4)], Valid: true})
+	case pick < 98:
+		g.invalidOp(from)
+	default:
+		g.winupd(from)
+	}
+}
+
+// Generate produces one history.  It runs the real relays while generating so that WINDOW_UPDATE
+// increments can be aimed at what is actually queued; the returned ops are then executed afresh.
+func Generate(r *rng.R, idx int) ([]Op, bool) {
+	g := &gen{r: r, s: NewSession(), nextID: 1, nextPush: 2, pendAck: map[string]int{}, tabDirty: map[string]bool{},
+		init: map[string]uint32{"C": 65535, "S": 65535}, maxf: map[string]uint32{"C": 16384, "S": 16384}}
+	defer g.s.Close()
+	g.maxStr = 1 + r.Intn(4)
+	g.winReg = r.Intn(4)
+	switch g.winReg {
+	case 0:
+		g.dataReg = r.Intn(2)
+	case 1:
+		g.dataReg = r.Intn(3)
+	default:
+		g.dataReg = 1 + r.Intn(3)
+	}
+	// prelude: each endpoint usually announces its settings first
+	for _, x := range []string{"C", "S"} {
+		if r.Chance(3, 4) {
+			o := Op{From: x, Kind: "settings", Valid: true}
+			if r.Chance(4, 5) {
+				v := g.windowValue()
+				o.Settings = append(o.Settings, [2]uint32{4, v})
+				g.init[x] = v
+			}
+			if r.Chance(1, 3) {
+				v := []uint32{16384, 20000, 32768, 65536}[r.Intn(4)]
+				o.Settings = append(o.Settings, [2]uint32{5, v})
+				g.maxf[x] = v
+			}
+			if r.Chance(1, 4) {
+				o.Settings = append(o.Settings, [2]uint32{1, []uint32{0, 100, 4096, 16384}[r.Intn(4)]})
+				g.tabDirty[x] = true
+			}
+			g.do(o)
+		}
+	}
+	steps := 6 + r.Intn(34)
+	for i := 0; i < steps && !g.dead; i++ {
+		g.step()
+	}
+	return g.ops, !g.dead && !g.invalid
 }
